@@ -316,10 +316,6 @@ func (s *xsim) build(p int, names []string) (*pb.InternalBlock, error) {
 	if pb0 == nil {
 		return nil, fmt.Errorf("unknown parent %d", p)
 	}
-	ph, err := s.node.Ledger.QueryBlockHeader(pb0.Blockid)
-	if err != nil {
-		return nil, err
-	}
 	b := s.n + 1
 	list := []*pb.Transaction{s.award(b)}
 	for _, nm := range names {
@@ -330,7 +326,7 @@ func (s *xsim) build(p int, names []string) (*pb.InternalBlock, error) {
 		list = append(list, proto.Clone(t).(*pb.Transaction))
 	}
 	m := fx.GetKey("m")
-	return s.node.Ledger.FormatMinerBlock(list, []byte(m.Address), m.Priv, int64(b), 0, 0, pb0.Blockid, 0, s.node.State.GetTotal(), nil, nil, ph.Height+1)
+	return s.node.Ledger.FormatMinerBlock(list, []byte(m.Address), m.Priv, int64(b), 0, 0, pb0.Blockid, 0, s.node.State.GetTotal(), nil, nil, pb0.Height+1)
 }
 
 func (s *xsim) confirm(blk *pb.InternalBlock) (bool, error) {
@@ -370,6 +366,12 @@ func strs(v interface{}) []string {
 func (s *xsim) step(op fx.Ev) (string, fx.Ev, error) {
 	st := s.node.State
 	extra := fx.Ev{}
+	// A generated operation may name a block the real node never stored (see ledger.go): record and go on.
+	for _, f := range []string{"p", "b", "d"} {
+		if op.Has(f) && s.blocks[op.Int(f)] == nil {
+			return "noblock", extra, nil
+		}
+	}
 	switch op.Str("op") {
 	case "submit":
 		t, err := s.tx(op.Str("t"))
